@@ -195,7 +195,9 @@ impl WMCore {
 
     // Maps the index from the next level with a set bit.
     fn map_up_one(&self, index: usize, level: usize) -> Option<usize> {
-        self.levels[level].select(index - self.levels[level].count_zeros())
+        // Positions below the number of unset bits belong to the items with an unset bit.
+        let rank = index.checked_sub(self.levels[level].count_zeros())?;
+        self.levels[level].select(rank)
     }
 
     // Maps the index from the next level with an unset bit.
